@@ -48,7 +48,8 @@ func NeutralizeUnbacked(w *World, props map[string]*PropConfig, running string) 
 			}
 			ok := false
 			for _, p := range cl.Props {
-				if backed[p] {
+				// "@class" tags name a safety class of the caller, not a property
+				if backed[p] || strings.HasPrefix(p, "@") {
 					ok = true
 				}
 			}
